@@ -176,6 +176,63 @@ def big_txn_history(res, rng, nrows):
     return fails
 
 
+def big_loser_history(res, rng):
+    """an unfinished transaction that changed more pages than the pool has frames (its pages were written out while it ran), crash,
+    restart in a pool that is smaller than the set of pages recovery has to undo"""
+    from dbsession import DB
+    import os
+    frames = rng.choice([20, 24])
+    db = DB(mem_kb=frames * 4)
+    fails = []
+    try:
+        if not db.open().startswith("ok"):
+            return [("open", "database does not start")]
+        db.cmd("mktable ta k:i:n,g:i:n,v:s:n"); db.cmd("mktable tb k:i:n,g:i:n,v:s:n")
+        n = rng.choice([400, 600])
+        want = []
+        for i in range(n):
+            v = pad(150 + i % 60, i)
+            db.cmd("rawinsert ta i:%d i:%d s:%s" % (i, i % 7, v.encode().hex()))
+            want.append("i:%d,i:%d,s:%s" % (i, i % 7, v.encode().hex()))
+        db.cmd("checkpoint")
+        db.cmd("mark SETUP-DONE")
+        db.cmd("begin x")
+        stmts = [rng.choice(["UPDATE ta SET g = 99 WHERE k >= 0 OR k >= 0;", "UPDATE ta SET g = 98 WHERE g < 4 OR g < 4;"])]
+        if rng.random() < 0.5:
+            stmts.append("DELETE FROM ta WHERE g = 99 AND k < 50 OR g = 98 AND k < 50;")
+        for q in stmts:
+            db.cmd("tsql x " + q, timeout=120)
+        # a small committed transaction afterwards: the log (with the big one's records) is durable
+        db.cmd("mark B 1"); db.sql("INSERT INTO tb(k,g,v) VALUES (1, 1, 'z');"); db.cmd("mark E 1 ok")
+        tp = os.path.join(db.dir, "loser.trace")
+        db.cmd("trace " + tp)
+        trace = load_trace(tp)
+        e1 = next(i for i, e in enumerate(trace) if e[0] == "M" and e[1] == "E 1 ok")
+        s0 = next(i for i, e in enumerate(trace) if e[0] == "M" and e[1] == "SETUP-DONE")
+        io = [p for p in range(s0, len(trace) + 1) if p == len(trace) or trace[p][0] != "M"]
+        mid = [p for p in io if p <= e1]
+        pts = sorted(set([len(trace)] + [p for p in io if p > e1][:2] + rng.sample(mid or [len(trace)], min(5, len(mid) or 1))))
+        want_a = "ok:" + ";".join(sorted(want))
+        rmem = rng.choice([64, 80])
+
+        def one(p):
+            return p, restart_on(image_at(trace, p), ["ta", "tb"], mem_kb=rmem, timeout=120)
+        for p, out in parallel(one, pts):
+            res.note_case("bigloser|%d|%d|%d" % (n, frames, p), True)
+            where = "unfinished transaction (%s) over %d rows / ~%d pages in a %d-frame pool, crash after %d I/O events, restart in a %d-frame pool" % (" ".join(stmts), n, n // 18, frames, sum(1 for e in trace[:p] if e[0] != "M"), rmem // 4)
+            bad = None
+            if out["status"] != "ok":
+                bad = "restart fails: %s" % out.get("detail", out["status"])
+            elif out["rows"]["ta"] != want_a:
+                got = set(out["rows"]["ta"][3:].split(";"))
+                bad = "effects of the unfinished transaction remain after restart: %d rows of ta differ from the committed rows (e.g. %s)" % (len(got ^ set(want)), sorted(got - set(want))[:1])
+            if bad and len(fails) < 2:
+                fails.append(("# verifharness db session: mktable ta k:i:n,g:i:n,v:s:n; %d x rawinsert; checkpoint; begin x; %s (left unfinished); INSERT INTO tb (committed); crash at trace position %d\n# crash-point %d None" % (n, " ".join(stmts), p, p), where + ": " + bad))
+    finally:
+        db.destroy()
+    return fails
+
+
 def run(res, replay=None, mode="c01"):
     res.rule = ("serial histories of 6-14 units on two SQL-created tables (auto-commit INSERT/UPDATE/DELETE incl. growing updates that relocate rows, explicit transactions that commit or abort, "
                 "forced checkpoints, one transaction left in flight), buffer pools from 45 frames (forcing evictions) to 300; the recorded I/O trace is cut at every I/O boundary after set-up "
@@ -189,14 +246,19 @@ def run(res, replay=None, mode="c01"):
     if not go_ok:
         return
     rng = random.Random(res.seed)
-    nh = 10 if res.tier == "quick" else 80
+    nh = (16 if mode == "c01" else 24) if res.tier == "quick" else 120
     if mode == "c01":
         for d, w in big_txn_history(res, rng, 2300 if res.tier == "quick" else 7000):
             if len(res.oracle_failures) < 5:
                 res.oracle_failures.append((d, w))
+    if mode != "c01":
+        for _ in range(2 if res.tier == "quick" else 12):
+            for d, w in big_loser_history(res, rng):
+                if len(res.oracle_failures) < 5:
+                    res.oracle_failures.append((d, w))
     for i in range(nh):
         mem = rng.choice([180, 240, 400, 1200])
-        md = ["small", "big", "grow", "aborts", "grow"][i % 5] if mode == "c01" else ["aborts", "big", "aborts", "small", "grow"][i % 5]
+        md = ["small", "big", "grow", "aborts", "grow"][i % 5] if mode == "c01" else ["aborts", "abortgrow", "big", "abortgrow", "small", "grow"][i % 6]
         for d, w in check_history(rng, res, md, mem, rng.randrange(6, 15), 40 if res.tier == "quick" else 150):
             if len(res.oracle_failures) < 5:
                 res.oracle_failures.append((d, w))
